@@ -327,6 +327,19 @@ var Helpers = []*HelperEntity{
 		// the lock-step Duplicates stop delivering to the longer side's branches only through
 		// Operate's drains, so unequal lengths are in the domain here as well
 	},
+	{Name: "helper.ArithSameSource", NIn: 1, // both operands of each operator are copies made by one Duplicate (a lock-step producer)
+		Build: func(p []int, in []<-chan F) []<-chan F {
+			d := helper.Duplicate(in[0], 8)
+			return []<-chan F{helper.Add(d[0], d[1]), helper.Subtract(d[2], d[3]), helper.Multiply(d[4], d[5]), helper.Divide(d[6], d[7])}
+		},
+		Model: func(p []int, in [][]F) [][]F {
+			return [][]F{
+				zip2(in[0], in[0], func(a, b F) F { return a + b }),
+				zip2(in[0], in[0], func(a, b F) F { return a - b }),
+				zip2(in[0], in[0], func(a, b F) F { return a * b }),
+				zip2(in[0], in[0], func(a, b F) F { return a / b }),
+			}
+		}},
 	{Name: "helper.Operate3", NIn: 3,
 		Build: func(p []int, in []<-chan F) []<-chan F {
 			return one(helper.Operate3(in[0], in[1], in[2], func(a, b, c F) F { return a*100 + b*10 - c }))
